@@ -4,15 +4,17 @@ PROPS = {
     "C04": dict(
         engine="rc", engine_name="rc-tape", sources=["props/c04.cpp"], level="exploration",
         design_ref="3.5",
-        technique="property-based testing (rapidcheck tapes): encode/decode round trip on sample counts and granule positions, differential packet-API vs vorbisfile (seekable and streaming)",
+        technique="property-based testing (rapidcheck tapes): encode/decode round trip on sample counts and granule positions, differential packet-API vs vorbisfile (seekable and streaming), differential between the two packet output paths of the encoder, exhaustive windows of consecutive lengths",
         level_text="Generated search over encoder configurations, lengths N (dense at 0, <1 block and block-size multiples +-2), input partitions, drain schedules and page layouts; "
-                   "the oracle is exact (integer counts, granule positions, bit-identical PCM between access paths). It explores thousands of cases per run, it does not prove all N.",
-        level_note="Trusted: system libogg, the harness pager (cross-checked against vorbisfile accepting its output), clang ASan/UBSan. Configurations rejected by set-up are skipped.",
+                   "the oracle is exact (integer counts, granule positions, bit-identical PCM between access paths). One case in 120 (quick) / 12 (thorough) checks every N of a window of 128 consecutive lengths "
+                   "inside [0, 3*bs1+129] for one of eight block-size families; one case in 4 re-encodes through vorbis_analysis(&vb,&op) and demands byte-identical packets (OV_EINVAL on managed encoders). "
+                   "Pages are cut by the harness pager or by libogg itself. It explores thousands of cases per run, it does not prove all N.",
+        level_note="Trusted: system libogg (also used as a second pager), clang ASan/UBSan. Configurations rejected by set-up are skipped.",
         quick=dict(cases=220), thorough=dict(cases=4000),
         rule="case = encoder configuration (channels, rate, VBR/managed/ctl) x signal x N x partition of N into "
              "vorbis_analysis_buffer/wrote pieces x drain schedule x page layout, decoded from a rapidcheck-generated tape; "
              "non-trivial = N not a multiple of bs1/2, or N < bs1, or >= 3 pieces; distinct by hash of (config, signal, N, pieces, layout)",
-        require_labels=["N=0", "N<bs1", "managed", "pieces>=3"],
+        require_labels=["N=0", "N<bs1", "managed", "pieces>=3", "paged by libogg", "direct packet output compared"],
         assumptions=["system libogg 1.3.5 is correct", "configurations the encoder refuses at set-up are outside the property's domain"],
     ),
 }
@@ -244,11 +246,13 @@ PROPS["C02"] = dict(
     level_text="Inputs: complete valid streams from vgen (every setup feature, up to 255 channels, 64..8192 blocks, ordered codebooks of up to 2^22 entries) or the encoder; 0..4 mutations: any setup/identification field overwritten with 0, 1, max, max-1, "
                "mid or random (positions logged by the header writer), truncation at any byte, bit flips, random bytes, reordered or replaced headers, damaged audio packets, perturbed b_o_s/e_o_s/granulepos/packetno. Scripts of 4..44 calls "
                "over headerin, idheader, synthesis_init, synthesis, trackonly, blockin, pcmout+read (incl. too many), lapout, restart, halfrate (before and after init), packet_blocksize, info_blocksize, granule_time, block_clear/init, dsp_clear. "
-               "Every returned sample is read; return values must lie in the documented sets; after any rejection the clear calls (twice) must work and leave zeros; no leak (per-case LeakSanitizer); a per-case CPU budget bounds termination.",
+               "Every returned sample is read; return values must lie in the documented sets; after any rejection the clear calls (twice) must work and leave zeros; no leak (per-case LeakSanitizer); a per-case CPU budget bounds termination. "
+               "Heap clause: after every call the bytes the library holds (ASan live-byte count differenced across library calls) must stay within a closed form of the fields of the accepted headers; "
+               "one case in 10 decodes the same stream 4..28 times over on one decoder (plain, with restart, with lapout, with a fresh block per pass) and the bytes held after pass 2 and after the last pass must be equal.",
     level_note="Calls are made within the documented contract (decode calls only on an initialised state, blockin only after a successful synthesis/trackonly on that block) plus the misuse classes the property names. Termination is decided by a CPU-time "
                "budget per case (150 s, thousands of times the normal cost), not by proof.",
     rule="case = material + mutations + call script; non-trivial = the identification header was accepted and a later header or packet reached a type-specific unpacker; distinct by hash of (case description, return-code history)",
-    require_labels=["header rejected", "synthesis_init succeeded", "synthesis_init failed", "audio packet rejected", "decoded at least one block", "mutated input", "huge ordered codebook", "encoder stream"],
+    require_labels=["header rejected", "synthesis_init succeeded", "synthesis_init failed", "audio packet rejected", "decoded at least one block", "mutated input", "huge ordered codebook", "encoder stream", "soak: repeated decode of one stream"],
     assumptions=["system libogg 1.3.5 is correct"],
 )
 
@@ -256,7 +260,7 @@ PROPS["C03"] = dict(
     engine="rc", engine_name="rc-tape", sources=["props/c03.cpp"], level="exploration", design_ref="3.4", tape_scale=6,
     quick=dict(cases=800), thorough=dict(cases=20000, fuzz_seconds=300),
     technique="structure-aware fuzzing through the tape engine (rapidcheck-generated and shrunk; the same body runs under libFuzzer in the thorough tier): generated chained streams damaged at the page level (with checksum repair), every open mode, generated scripts over all public vorbisfile calls; oracle = ASan/UBSan/LSan + callback work budget + documented return codes + close accounting",
-    level_text="Physical streams: chains of 1..16 encoder/synthetic links (64..4096 blocks, 1..255 channels), then 0..4 damage steps on the page structure (drop, duplicate, move pages; edit granule position, serial number, flags, sequence number, "
+    level_text="Physical streams: chains of 1..16 encoder/synthetic links (64..4096 blocks, 1..255 channels), then 0..4 damage steps on the page structure (drop, duplicate, move pages; page-free runs of 66..266 kB inserted at page boundaries, zeroed stretches; edit granule position, serial number, flags, sequence number, "
                "version, lacing values; truncate anywhere; bit flips; garbage incl. fake capture patterns between pages; EOS removed; first link appended again = repeated serial number), checksums repaired in 4 of 5 cases. Opens: seekable, "
                "NULL seek/tell, failing seek, ov_test(+ov_test_open), initial buffers, short-read schedules. Scripts of 2..41 calls: ov_read_float, ov_read (all formats, tiny buffers, bad word sizes), all seeks and lapped seeks with in-range, "
                "boundary, out-of-range, NaN and infinite arguments, tells, totals, info/comment/bitrate/serialnumber with link indices -2..links+1, bitrate_instant, halfrate, ov_crosslap with a second handle, ov_read_filter, clear twice, "
@@ -264,7 +268,7 @@ PROPS["C03"] = dict(
                "close runs exactly once at ov_clear.",
     level_note="Termination is decided by a deterministic budget of callback invocations per API call (>= 100000 and >= 3600 per 2 KiB of file), plus the per-case CPU budget; it bounds, it does not prove.",
     rule="case = chain + damage steps + open mode + call script; non-trivial = the open succeeded and at least one read returned data or one seek succeeded; distinct by hash of (case description, return-code history)",
-    require_labels=["open failed", "damaged stream", "intact stream", "seekable", "streaming", "ov_test", "initial buffer", "damaged stream delivered data"],
+    require_labels=["open failed", "damaged stream", "intact stream", "seekable", "streaming", "ov_test", "initial buffer", "damaged stream delivered data", "page-free run longer than 64 kB"],
     assumptions=["system libogg 1.3.5 is correct"],
 )
 
